@@ -84,7 +84,7 @@ type Scenario struct {
 	Gens       []Generation `json:"gens"`
 }
 
-var apps = []string{"a0", "a1", "a2"}
+var apps = []string{"a0", "srv/foo.com", "a2"} // one key value with separator characters (the queue directory name is a sanitised form of it)
 var hosts = []string{"h0", "h1"}
 var levels = []string{"off", "fatal", "crit", "error", "warn", "notice", "info", "debug"}
 
@@ -134,6 +134,7 @@ type Outcome struct {
 	Crash     *vh.Finding
 	Notes     []string
 	Reloads   []ReloadObs
+	OrphansAtStart []string // "generation g: out/dir": queue directories that held chunk files when a generation started and got no pipeline
 	Hang      string // goroutine dump if the scenario did not finish within the budget
 	instances int
 }
@@ -444,6 +445,13 @@ func runScenario(sc Scenario) *Outcome {
 		ag, err := startAgent(confPath, sc.Reloader)
 		if err != nil {
 			panic("agent does not start with the harness configuration: " + err.Error())
+		}
+		// queued chunks found at start-up must be reattached: every queue directory with chunk files has a pipeline now
+		// (the pipelines for listed queues are created synchronously while the orchestrator starts; no traffic yet)
+		if _, orphans := orphanQueues(filepath.Join(root, "buf"), nOut, sc.KeyHost, ag.gather); len(orphans) > 0 {
+			for _, o := range orphans {
+				out.OrphansAtStart = append(out.OrphansAtStart, fmt.Sprintf("generation %d: %s", gi, o))
+			}
 		}
 		// reloads during the traffic
 		var rwg sync.WaitGroup
